@@ -1,0 +1,187 @@
+//go:build verif
+
+package gcsutil
+
+// Contracts for the transient lock map (property C19, and C07 as far as it rests on the lock map).
+// Checked by /verif/govc. Comments only; compiled only with the build tag "verif".
+// Owner: lockmap.  Report: /verif/agent_reports/lockmap.md
+
+// ---------------------------------------------------------------------------------------------
+// Tool workaround (see report, tool problem T1): govc symbolically runs the package initialiser at
+// the entry of every unit of the package. For gcsutil this is the protobuf registration code of
+// gcspagetoken.pb.go; it ends in calls with unknown effects, which havoc every heap and make every
+// query of every gcsutil unit time out. The contract below is used instead of the body. It is
+// trusted (generated code that calls into protoimpl: outside the subset) and says that the
+// registration does not touch any state the lock map (or any other verified gcsutil function) reads:
+// it only writes the package-level descriptor variables of gcspagetoken.pb.go.
+// ---------------------------------------------------------------------------------------------
+
+//@ func file_gcspagetoken_proto_init
+//@   trusted protobuf-generated registration (protoimpl.TypeBuilder.Build etc.): outside the subset; assumed not to touch lock-map state (it only writes the package-level descriptor variables of gcspagetoken.pb.go)
+//@   pure
+
+// ---------------------------------------------------------------------------------------------
+// Lock discipline and structural invariants of TransientLockMap
+// ---------------------------------------------------------------------------------------------
+
+// The map is only read and written with l.mu held (every access becomes a "guard" obligation).
+//@ guarded_by TransientLockMap.locks TransientLockMap.mu
+
+// The map field is set once, by NewTransientLockMap (the only constructor used in the repository:
+// gcsemu.go:63), and never stored to again; the values put into the map are never nil. Both are
+// checked at every store / map update; loads may assume them.
+//@ typeinv nonnil TransientLockMap.locks
+//@ typeinv mapvals_nonnil TransientLockMap.locks
+
+// ---------------------------------------------------------------------------------------------
+// Ghost state of the key locks.
+//
+// A countedLock is a 1-slot channel: slot full == locked. Channels, send and select are outside the
+// govc subset, so the slot is modelled by the uninterpreted predicate ufb_lmFull(lock, lmTick): "the
+// slot of this lock is full at ghost time lmTick". lmTick is a ghost counter that only the trusted
+// contracts of (*countedLock).Lock/Unlock advance; they describe the slot of their receiver at the new
+// tick and state that every other lock keeps its slot state (frame).
+// lmCtxDone(ctx) = ufb_lmCtxDone(ctx, lmTick): "the context had ended when the key-lock clock stood at
+// lmTick" (asserted only by the false result of (*countedLock).Lock; used by the trusted contract of
+// context.Context.Err in /verif/contracts/trusted/area_lockmap.spec: once ended, Err() != nil).
+// ---------------------------------------------------------------------------------------------
+
+//@ ghostvar lmTick int
+
+//@ spec lmFull(m *countedLock) bool = ufb_lmFull(m, lmTick)
+//@ spec lmCtxDone(ctx context.Context) bool = ufb_lmCtxDone(ctx, lmTick)
+
+// Typestate of the calling thread's key-lock protocol: which countedLock operation it performed last
+// (lmLastOp: 0 none, 1 Lock returned false, 2 Lock returned true, 3 Unlock returned) and on which lock
+// object (lmLastId == uf_lmId(lock)). Set by the trusted contracts of (*countedLock).Lock/Unlock only
+// (a verified body cannot advance a ghost variable: there are no ghost statements, so returnLockObj cannot
+// record "reference given back" itself).
+// returnLockObj requires "last operation = failed Lock or completed Unlock of this lock object": this is
+// how "lock.Unlock() happens before returnLockObj" (and "a reference is only given back by a thread that
+// does not hold the key lock through it") is checked.
+//@ ghostvar lmLastOp int
+//@ ghostvar lmLastId int
+
+// Monitor invariant of the map mutex (holds whenever l.mu is free): every entry is a live lock object
+// with a positive reference count ("present iff refcount > 0": an object whose count dropped to 0 has
+// been deleted), and two keys never share a lock object.
+//@ spec lmEntriesOK(l *TransientLockMap) bool = forall k string :: k in l.locks ==> (l.locks[k] != nil && allocated(l.locks[k]) && l.locks[k].refcount > 0)
+//@ spec lmInjective(l *TransientLockMap) bool = forall k1 string, k2 string :: k1 in l.locks && k2 in l.locks && k1 != k2 ==> l.locks[k1] != l.locks[k2]
+//@ spec lmInv(l *TransientLockMap) bool = l.locks != nil && lmEntriesOK(l) && lmInjective(l)
+
+// Every key other than key keeps its entry.
+//@ spec lmOthersKept(l *TransientLockMap, key string) bool = forall k string :: k != key ==> ((k in l.locks) == old(k in l.locks) && l.locks[k] == old(l.locks[k]))
+
+// ---------------------------------------------------------------------------------------------
+// Constructors
+// ---------------------------------------------------------------------------------------------
+
+//@ func NewTransientLockMap
+//@   property C19
+//@   ensures result != nil && fresh(result)
+//@   ensures result.locks != nil && fresh(result.locks)
+//@   ensures forall k string :: !(k in result.locks)
+//@   ensures lmInv(result)
+
+//@ func newCountedLock
+//@   property C19
+//@   ensures result != nil && fresh(result)
+//@   ensures result.refcount == 0
+//@   ensures result.ch != nil && fresh(result.ch)
+
+// ---------------------------------------------------------------------------------------------
+// countedLock: select on channels => trusted
+// ---------------------------------------------------------------------------------------------
+
+//@ func (m *countedLock) Lock
+//@   property C19
+//@   trusted select with channel send/receive (outside the subset). ASSUMES: m.ch is a channel of capacity 1 that only Lock sends to and only Unlock receives from, so a successful send fills an empty slot (mutual exclusion); the method returns false only after ctx.Err() != nil or ctx.Done() fired, and then has not sent; it touches no memory besides the channel.
+//@   requires !isnil(ctx)
+//@   modifies ghost(lmTick), ghost(lmLastOp), ghost(lmLastId), ghost(epoch)
+//@   ensures lmLastId == uf_lmId(m) && lmLastOp == (result ? 2 : 1)
+//@   ensures result ==> !old(lmFull(m)) && lmFull(m)
+//@   ensures !result ==> lmFull(m) == old(lmFull(m))
+//@   ensures !result ==> lmCtxDone(ctx)
+//@   ensures forall x *gcsutil.countedLock :: x != m ==> lmFull(x) == old(lmFull(x))
+
+//@ func (m *countedLock) Unlock
+//@   property C19
+//@   trusted non-blocking select with channel receive (outside the subset). ASSUMES: the receive succeeds iff the slot is full and then empties the slot; otherwise (slot empty, or nil channel) the method panics; it touches no memory besides the channel.
+//@   modifies ghost(lmTick), ghost(lmLastOp), ghost(lmLastId)
+//@   panics iff !lmFull(m)
+//@   ensures lmLastId == uf_lmId(m) && lmLastOp == 3
+//@   ensures old(lmFull(m))
+//@   ensures !lmFull(m)
+//@   ensures forall x *gcsutil.countedLock :: x != m ==> lmFull(x) == old(lmFull(x))
+
+//@ func (m *countedLock) Run
+//@   property C19
+//@   trusted calls Lock/Unlock (select on channels) and a callback of unknown effect; never called by the lock map or the emulators. ASSUMES nothing beyond the two contracts above: f runs at most once, between a successful m.Lock and the deferred m.Unlock.
+//@   requires !isnil(ctx) && f != nil
+//@   modifies *
+
+// Note on the built-in ghost `epoch` ("increases every time a sync lock is acquired"): returnLockObj, Lock
+// and Unlock acquire l.mu (and Lock / Unlock operate the key lock), so they list ghost(epoch) in their
+// modifies clauses: for their callers the epoch has moved on (govc does not frame-check ghosts, so
+// omitting it would go unnoticed but would hide the acquisition from epoch-tagged reasoning in callers).
+
+// ---------------------------------------------------------------------------------------------
+// returnLockObj: drop one reference; delete the entry when the last reference is gone.
+// ---------------------------------------------------------------------------------------------
+
+//@ func (l *TransientLockMap) returnLockObj
+//@   property C19 C07
+//@   held l.mu none
+//@   requires lock != nil
+//@   requires lmLastId == uf_lmId(lock) && (lmLastOp == 1 || lmLastOp == 3)
+//@   modifies lock.refcount, mapof(l.locks), ghost(epoch)
+//@   panics iff old(lock.refcount) <= 0
+//@   ensures old(lock.refcount) > 0
+//@   ensures lock.refcount == old(lock.refcount) - 1
+//@   ensures lock.refcount == 0 ==> !(key in l.locks)
+//@   ensures lock.refcount != 0 ==> ((key in l.locks) == old(key in l.locks) && l.locks[key] == old(l.locks[key]))
+//@   ensures lmOthersKept(l, key)
+//@   ensures old(lmInv(l)) && old(key in l.locks) && old(l.locks[key]) == lock ==> lmInv(l)
+
+// ---------------------------------------------------------------------------------------------
+// Lock: lookup-or-create + refcount++ under l.mu (closure), then acquire the key lock; on
+// cancellation give the reference back.
+// ---------------------------------------------------------------------------------------------
+
+//@ func (l *TransientLockMap) Lock
+//@   property C19 C07
+//@   held l.mu none
+//@   requires !isnil(ctx)
+//@   modifies l.locks[key].refcount, mapof(l.locks), ghost(lmTick), ghost(lmLastOp), ghost(lmLastId), ghost(epoch)
+//@   ensures old(lmInv(l)) ==> lmInv(l)
+//@   ensures lmLastOp == (result ? 2 : 1)
+//@   ensures result ==> lmLastId == uf_lmId(l.locks[key])
+//@   ensures result ==> key in l.locks && lmFull(l.locks[key])
+//@   ensures result && old(key in l.locks) ==> l.locks[key] == old(l.locks[key]) && !old(lmFull(l.locks[key])) && l.locks[key].refcount == old(l.locks[key].refcount) + 1
+//@   ensures result && !old(key in l.locks) ==> fresh(l.locks[key]) && l.locks[key].refcount == 1
+//@   ensures !result ==> lmCtxDone(ctx)
+//@   ensures !result && old(lmInv(l)) ==> forall k string :: ((k in l.locks) == old(k in l.locks) && (k in l.locks ==> l.locks[k] == old(l.locks[k]) && l.locks[k].refcount == old(l.locks[k].refcount)))
+//@   ensures !result && old(key in l.locks) ==> old(l.locks[key]).refcount == old(l.locks[key].refcount)
+//@   ensures !result ==> forall x *gcsutil.countedLock :: lmFull(x) == old(lmFull(x))
+//@   ensures lmOthersKept(l, key)
+//@   ensures forall x *gcsutil.countedLock :: x != l.locks[key] ==> lmFull(x) == old(lmFull(x))
+
+// ---------------------------------------------------------------------------------------------
+// Unlock: look the lock object up under l.mu (closure), release the key lock, then give the
+// reference back. Panics iff the key has no entry or the slot of its lock is empty.
+// ---------------------------------------------------------------------------------------------
+
+//@ func (l *TransientLockMap) Unlock
+//@   property C19 C07
+//@   held l.mu none
+//@   modifies l.locks[key].refcount, mapof(l.locks), ghost(lmTick), ghost(lmLastOp), ghost(lmLastId), ghost(epoch)
+//@   panics iff !old(key in l.locks) || !old(lmFull(l.locks[key])) || old(l.locks[key].refcount) <= 0
+//@   ensures old(key in l.locks) && old(lmFull(l.locks[key])) && old(l.locks[key].refcount) > 0
+//@   ensures !lmFull(old(l.locks[key]))
+//@   ensures lmLastOp == 3 && lmLastId == uf_lmId(old(l.locks[key]))
+//@   ensures old(l.locks[key]).refcount == old(l.locks[key].refcount) - 1
+//@   ensures (key in l.locks) <==> old(l.locks[key].refcount) > 1
+//@   ensures key in l.locks ==> l.locks[key] == old(l.locks[key])
+//@   ensures lmOthersKept(l, key)
+//@   ensures forall x *gcsutil.countedLock :: x != old(l.locks[key]) ==> lmFull(x) == old(lmFull(x))
+//@   ensures old(lmInv(l)) ==> lmInv(l)
